@@ -31,6 +31,7 @@ theorem every_entry_point_terminates : ∀ (ty : Ty), entryTerminates ty = true
   | .str => by decide
   | .bytes => by decide
   | .box _ t => by simp only [entryTerminates]; exact every_entry_point_terminates t
+  | .wrap t => by simp only [entryTerminates]; exact every_entry_point_terminates t
   | .duration => by decide
   | .range _ => by simp [entryTerminates, overrides, resolves]
   | .bitseq _ _ => by simp [entryTerminates, overrides, resolves]
@@ -67,6 +68,9 @@ theorem usingEncoded_eq : ∀ (ty : Ty) (v : Val), wf ty v = true → usingEncod
       | [], h => simp [wf, wfList] at h
       | _ :: _ :: _, h => simp [wf, wfList] at h
   | .box _ t, v, h => by
+    simp only [usingEncoded, Spec.encode]
+    exact usingEncoded_eq t v (by simpa [wf] using h)
+  | .wrap t, v, h => by
     simp only [usingEncoded, Spec.encode]
     exact usingEncoded_eq t v (by simpa [wf] using h)
   | .unit, v, h => by simp only [usingEncoded, encode]; exact encodeTo_ref _ _ h
